@@ -166,6 +166,7 @@ def run(tier, replay=None):
     ck.bounds = {"forking_window": "%d consecutive map-iteration events per run; windows slide over all events of the run" % W,
                  "orders_per_event": "all permutations for maps of <= 3 entries; insertion / reverse / rotate-by-1 above",
                  "global_strategies": ["every iteration reversed", "every iteration rotated by one"],
+                 "site_lemmas": "scLookupRecFac (2..3 records with symbolic 2-byte names, both field orders, both literal orders), eqsUnion + rsRegisterNewEI (4 symbolic variable names), exhaustiveness accept/reject: all 6 enumeration orders inside one path",
                  "templates": [os.path.basename(t[-1]) for t in templates(tier)]}
     ck.assumptions = ["the only sources of nondeterminism of fc are range-over-map instructions (all inside dict.Keys/Values/KVs today); the engine makes each one's order a choice",
                       "violation = two orders with different (exit status, output files); differing diagnostics on stdout are recorded but not violations",
@@ -178,6 +179,10 @@ def run(tier, replay=None):
             print("VIOLATION property=C05 replay=%s" % replay)
             return 1
         return 0
+    # site lemmas: consumers of dict.Keys/Values/KVs on dictionaries with symbolic keys, every order in one path
+    res = run_symgo(mod, hp, "main", "^Harness_C05_Site_", steps=5000000, timeout=200)
+    ck.add_run(res)
+    ck.handle_violations(res, NativeReplayer(mod, "main", hp), timeout=120)
     stdout_diffs = []
     for files in templates(tier):
         name = os.path.basename(files[-1])
